@@ -227,8 +227,32 @@ pub fn bytes(max: usize) -> BoxedStrategy<Bytes> {
     vec(any::<u8>(), 0..=max).prop_map(Bytes).boxed()
 }
 
+/// special-purpose addresses: unspecified, loopback, IPv4-mapped / -compatible, NAT64, link-local, multicast, documentation
+const SPECIAL_V4: [[u8; 4]; 8] = [[0, 0, 0, 0], [127, 0, 0, 1], [255, 255, 255, 255], [224, 0, 0, 251], [169, 254, 1, 1], [10, 0, 0, 1], [192, 0, 2, 1], [100, 64, 0, 1]];
+const SPECIAL_V6: [[u8; 16]; 9] = [
+    [0; 16],
+    [0, 0, 0, 0, 0, 0, 0, 0, 0, 0, 0, 0, 0, 0, 0, 1],
+    [0, 0, 0, 0, 0, 0, 0, 0, 0, 0, 0xff, 0xff, 192, 0, 2, 1],
+    [0, 0, 0, 0, 0, 0, 0, 0, 0, 0, 0xff, 0xff, 0, 0, 0, 0],
+    [0, 0, 0, 0, 0, 0, 0, 0, 0, 0, 0, 0, 10, 0, 0, 1],
+    [0, 0x64, 0xff, 0x9b, 0, 0, 0, 0, 0, 0, 0, 0, 192, 0, 2, 33],
+    [0xfe, 0x80, 0, 0, 0, 0, 0, 0, 0, 0, 0, 0, 0, 0, 0, 1],
+    [0xff, 0x02, 0, 0, 0, 0, 0, 0, 0, 0, 0, 0, 0, 0, 0, 0xfb],
+    [0x20, 0x01, 0x0d, 0xb8, 0, 0, 0, 0, 0, 0, 0, 0, 0, 0, 0, 1],
+];
+
 pub fn bytes_n(n: usize) -> BoxedStrategy<Bytes> {
-    vec(any::<u8>(), n..=n).prop_map(Bytes).boxed()
+    let special: Vec<Bytes> = match n {
+        4 => SPECIAL_V4.iter().map(|a| Bytes(a.to_vec())).collect(),
+        16 => SPECIAL_V6.iter().map(|a| Bytes(a.to_vec())).collect(),
+        _ => vec![Bytes(vec![0; n]), Bytes(vec![0xff; n])],
+    };
+    prop_oneof![
+        5 => vec(any::<u8>(), n..=n).prop_map(Bytes),
+        1 => select(special),
+        1 => any::<u8>().prop_map(move |b| Bytes(vec![b; n])),
+    ]
+    .boxed()
 }
 
 /// opaque tails: mostly short, sometimes a few hundred bytes
@@ -238,6 +262,9 @@ pub fn tail() -> BoxedStrategy<Bytes> {
         6 => bytes(24),
         1 => bytes(600),
         1 => (select(dict_sizes(700)), any::<u8>()).prop_map(|(n, b)| Bytes(vec![b; n])),
+        // zero-filled and zero-padded data (padding a maintainer might decide to ignore)
+        1 => (0usize..=6).prop_map(|n| Bytes(vec![0; n])),
+        1 => (vec(any::<u8>(), 1..=6), 1usize..=3).prop_map(|(mut v, z)| { v.extend(std::iter::repeat(0).take(z)); Bytes(v) }),
     ]
     .boxed()
 }
